@@ -2,14 +2,14 @@
 # No-false-alarm regression: the behaviour-preserving refactorings in seeded/harmless/*.diff (written by independent
 # sub-agents, each with an old-vs-new equivalence script) are applied to /repo in two sets (H1-H4, H5-H8: the sets
 # rewrite the same functions differently), never committed; every check must still exit 0.  /repo is restored afterwards.
-# usage: tools/harmless_regress.sh [quick|thorough] [set ...]     (sets: A = H1..H4, B = H5..H8)
+# usage: tools/harmless_regress.sh [quick|thorough] [set ...]     (sets: A = H1..H4, B = H5..H8, C = H9..H12)
 cd /verif
 tier=${1:-quick}; shift
-sets=("$@"); [ ${#sets[@]} -eq 0 ] && sets=(A B)
+sets=("$@"); [ ${#sets[@]} -eq 0 ] && sets=(A B C)
 rc=0
 for set in "${sets[@]}"; do
   [ -z "$(git -C /repo status --porcelain -- src)" ] || { echo "/repo/src is not clean; refusing"; exit 2; }
-  if [ $set = A ]; then names="H1 H2 H3 H4"; else names="H5 H6 H7 H8"; fi
+  if [ $set = A ]; then names="H1 H2 H3 H4"; elif [ $set = B ]; then names="H5 H6 H7 H8"; else names="H9 H10 H11 H12"; fi
   for n in $names; do
     p=seeded/harmless/$n.diff; [ -f $p ] || continue
     git -C /repo apply --3way /verif/$p 2>/dev/null || git -C /repo apply /verif/$p || echo "$p does not apply -- skipped"
